@@ -241,6 +241,12 @@ def check_fasta(cols, nseq, gapchars):
         return f"FASTA round trip trace {back.trace.tolist()} vs {trace}"
     if [str(s) for s in back.sequences] != [str(s) for s in seqs]:
         return "FASTA round trip sequences"
+    # an explicit sequence type is honoured for every row (the rows use letters that are also nucleotide codes)
+    from biotite.sequence import ProteinSequence, NucleotideSequence
+    for want_type in (ProteinSequence, NucleotideSequence):
+        typed = fasta.get_alignment(fasta.FastaFile.read(io.StringIO(text)), additional_gap_chars=extra or ("_",), seq_type=want_type)
+        if any(type(s_) is not want_type for s_ in typed.sequences) or typed.trace.tolist() != trace:
+            return f"get_alignment(seq_type={want_type.__name__}) returned {[type(s_).__name__ for s_ in typed.sequences]}"
     return None
 
 
